@@ -540,22 +540,44 @@ func c17Truncate(c *ev.Ctx, streams [][]c17frame) {
 					fx.close()
 					continue
 				}
-				// replies for the complete frames
-				got := 0
+				// replies for the complete frames ('S' frames are answered
+				// under NOTAG: counted below, not matched by tag)
+				got, want, nS := 0, 0, 0
 				for i := 0; i < complete; i++ {
+					if frames[i].kind == 'S' {
+						nS++
+						fx.p.Forget(tags[i], wire.Twrite)
+						continue
+					}
+					want++
 					if r, ok, _, _ := fx.p.WaitTag(tags[i], from); ok && r != nil {
 						got++
 					}
 				}
-				if got != complete {
-					det["replies"] = got
+				n := fx.p.NReplies() - from
+				if got != want || n < want+nS {
+					det["replies"] = n
 					sig := "C17:srv:complete-frame-not-served-before-EOF"
 					if with {
 						sig = "C17:srv:complete-frame-dropped-when-EOF-arrives-with-its-last-bytes"
 					}
 					c.Violation(sig, det)
 				}
-				if n := fx.p.NReplies() - from; n > complete {
+				// A frame the receiver rejects on its header alone (unknown
+				// type; a size too small for its type) may be refused as soon as
+				// the header is there: that Rlerror is not a message decoded
+				// from a truncated frame.
+				extra := 0
+				if complete < len(frames) && (frames[complete].kind == 'X' || frames[complete].kind == 'S') {
+					start := 0
+					for _, e := range enc[:complete] {
+						start += len(e)
+					}
+					if t-start >= 7 {
+						extra = 1
+					}
+				}
+				if n > complete+extra {
 					det["replies"] = n
 					c.Violation("C17:srv:truncated-frame-yielded-a-message", det)
 				}
